@@ -96,7 +96,10 @@ func (c08) Exec(c Case) []string {
 	var comp *xmpp.Component
 	for _, op := range c.Ops {
 		switch op[0] {
-		case "send", "sendraw":
+		case "wsfail":
+			obs = append(obs, c08wsfail(sm))
+			continue
+		case "send", "sendraw", "sendiq":
 			if client == nil && comp == nil {
 				seq = &scriptConn{}
 				if component {
@@ -152,6 +155,13 @@ func (c08) Exec(c Case) []string {
 			var err error
 			if op[0] == "send" {
 				err = client.Send(c10packet(op[1], unhx(op[2])))
+			} else if op[0] == "sendiq" {
+				// SendIQ: also when a request with the same id is still pending, the request goes on the wire
+				iq, _ := stanza.NewIQ(stanza.Attrs{Type: stanza.IQTypeGet, Id: unhx(op[1]), To: "srv"})
+				iq.Payload = &stanza.Version{}
+				ctx, cancel := context.WithCancel(context.Background())
+				defer cancel()
+				_, err = client.SendIQ(ctx, iq)
 			} else {
 				err = client.SendRaw(unhx(op[1]))
 			}
@@ -176,6 +186,66 @@ func (c08) Exec(c Case) []string {
 		}
 	}
 	return obs
+}
+
+// c08wsfail: a client on the WebSocket transport whose peer has closed the connection: Send and SendRaw must report
+// the failure (WebsocketTransport.Write returns the full length together with the error).
+func c08wsfail(sm bool) string {
+	mux := http.NewServeMux()
+	gone := make(chan struct{})
+	mux.HandleFunc("/", func(w http.ResponseWriter, r *http.Request) {
+		c, err := websocket.Accept(w, r, &websocket.AcceptOptions{Subprotocols: []string{"xmpp"}})
+		if err != nil {
+			return
+		}
+		ctx := context.Background()
+		if _, _, err := c.Read(ctx); err == nil {
+			c.Write(ctx, websocket.MessageText, []byte(`<open xmlns="urn:ietf:params:xml:ns:xmpp-framing" id="ws1" from="localhost" version="1.0"/>`))
+			c.Read(ctx) // the first stanza
+		}
+		c.Close(websocket.StatusGoingAway, "bye")
+		close(gone)
+	})
+	ln, err := net.Listen("tcp", "127.0.0.1:0")
+	if err != nil {
+		return "listen-failed"
+	}
+	srv := &http.Server{Handler: mux}
+	go srv.Serve(ln)
+	defer srv.Close()
+	cfg := &xmpp.Config{TransportConfiguration: xmpp.TransportConfiguration{Address: "ws://" + ln.Addr().String() + "/", Domain: "localhost"},
+		Jid: "u@localhost/r", Credential: xmpp.Password("p"), StreamManagementEnable: sm}
+	client, err := xmpp.NewClient(cfg, xmpp.NewRouter(), func(error) {})
+	if err != nil {
+		return "newclient-failed"
+	}
+	if _, err := xmpp.VerifTransport(client).Connect(); err != nil {
+		return "ws-connect-failed"
+	}
+	client.Session = &xmpp.Session{}
+	if sm {
+		client.Session.SMState = xmpp.SMState{Id: "sm", UnAckQueue: stanza.NewUnAckQueue()}
+	}
+	first := client.Send(stanza.Message{Attrs: stanza.Attrs{Id: "first", To: "a@b"}, Body: "x"})
+	select {
+	case <-gone:
+	case <-time.After(3 * time.Second):
+		return "server-did-not-close"
+	}
+	// the connection is closed: within a short while every send has to fail
+	sendErr, rawErr := false, false
+	deadline := time.Now().Add(3 * time.Second)
+	for time.Now().Before(deadline) && !(sendErr && rawErr) {
+		if client.Send(stanza.Message{Attrs: stanza.Attrs{Id: "late", To: "a@b"}, Body: "y"}) != nil {
+			sendErr = true
+		}
+		if client.SendRaw("<presence id='late'/>") != nil {
+			rawErr = true
+		}
+		time.Sleep(5 * time.Millisecond)
+	}
+	xmpp.VerifTransport(client).Close()
+	return fmt.Sprintf("first=%v senderr=%v rawerr=%v", first == nil, sendErr, rawErr)
 }
 
 // ---- concurrent senders -----------------------------------------------------------------------------
@@ -206,6 +276,13 @@ func c08body(id string) string {
 		body += strings.Repeat(id+"-0123456789abcdef;", 400)
 	}
 	return body
+}
+
+func c08iqBytes(id string) string {
+	iq, _ := stanza.NewIQ(stanza.Attrs{Type: stanza.IQTypeGet, Id: id, To: "srv"})
+	iq.Payload = &stanza.Version{}
+	b, _ := xml.Marshal(iq)
+	return string(b)
 }
 
 func c08payload(id string) (stanza.Packet, string) {
@@ -552,6 +629,17 @@ func (c08) Generate(rng *rand.Rand, tier string, st *Stats) []Case {
 			}
 			rec(nil, L)
 			st.Add("sequential_histories", 27)
+			if vv.who == "client" {
+				// SendIQ, twice with the same id (the second while the first is pending), then a third id
+				cases = append(cases, Case{ID: fmt.Sprintf("c08-%d", n), Variant: variant, Ops: [][]string{
+					{"sendiq", hx("dup"), hx(c08iqBytes("dup")), "ok"}, {"sendiq", hx("dup"), hx(c08iqBytes("dup")), "ok"},
+					{"sendiq", hx("other"), hx(c08iqBytes("other")), "err"}, {"sendiq", hx("dup"), hx(c08iqBytes("dup")), "ok"}}})
+				n++
+				if !vv.lg && !vv.resume {
+					cases = append(cases, Case{ID: fmt.Sprintf("c08-%d", n), Variant: variant, Ops: [][]string{{"wsfail"}}})
+					n++
+				}
+			}
 			// concurrent
 			if vv.resume || vv.who == "component" {
 				continue
